@@ -381,7 +381,16 @@ def check_C08(tier):
 
 
 def check_C09(tier):
-    return std_chess_check("C09", tier, ["att", "tree"], extra=lambda ck, res: engine_games(ck, "C09", tier, {"in-check"})).finish()
+    def histories(ck, res0):
+        # the cached check flag after do / undo / null-move histories (the behaviours of C03): asked of every position on the way,
+        # then compared with the board at the end
+        for a in dfs_arts(tier):
+            ck.add_tlc(a)
+            res = chess_replay([a], ["C09"])
+            ck.add_result(res)
+            ck.cov["counters"]["C09.has_check_after_history"] = ck.cov["counters"].get("C09.has_check_after_history", 0) + res["counters"].get("C09.has_check_after_history", 0)
+        engine_games(ck, "C09", tier, {"in-check"})
+    return std_chess_check("C09", tier, ["att", "tree"], extra=histories).finish()
 
 
 def check_C15(tier):
